@@ -382,6 +382,10 @@ def _r1(ctx, f, blk, reg, with_latency=True):
                     if d.kind == "assign" and d.value is not None and C.const_num(d.value) == 0 and C.holds_at(d.stmt, "%s is None" % e.id):
                         # `x = 0.0` where x is None: the same quantity with "unknown" read as 0 - follow what x was
                         r = scal(ast.Name(id=e.id, ctx=ast.Load()), d.stmt, guards, depth + 1)
+                    elif d.kind == "assign" and d.value is not None and C.const_num(d.value) == 0 and C.holds_at(
+                            d.stmt, "%s.latency is None" % reg):
+                        # `x = 0.0` on the path where the register form's latency is None: that latency, "unknown" read as 0
+                        r = [(("REG", frozenset()),)]
                     elif d.kind == "assign" and d.value is not None:
                         r = scal(d.value, d.stmt, guards, depth + 1)
                     elif d.kind == "aug" and isinstance(d.stmt.op, ast.Add):
